@@ -1,0 +1,14 @@
+//go:build verif
+
+package filesystem
+
+import "github.com/cossacklabs/acra/keystore"
+
+// VerifWrapCache is an observation hook for the /verif runtime monitors (compiled only with build tag "verif").
+// It replaces the store's key cache with wrap(cache), so that a monitor can put a recording wrapper around the
+// very cache object the store uses (groupcache's LRU offers no iteration, so the only way to see what the store
+// keeps in memory is to interpose on Add/Get/Clear). It must be called before the store is used concurrently.
+// The hook adds no behaviour of its own: with wrap = identity the store is unchanged.
+func (store *KeyStore) VerifWrapCache(wrap func(keystore.Cache) keystore.Cache) {
+	store.cache = wrap(store.cache)
+}
